@@ -157,8 +157,28 @@ func scanJag(c *core.Ctx) []ob {
 			if guarded {
 				// the column loop then runs over a row-independent range, which must be the maximum row length
 				hasMax := false
-				if lj.bound != nil {
-					ast.Inspect(lj.bound, func(x ast.Node) bool {
+				bound := lj.bound
+				// a hoisted bound: n := slices.Max(sizes) ; for j := 0; j < n; j++
+				if id, ok := unparen(bound).(*ast.Ident); ok && bound != nil {
+					if o := info.Uses[id]; o != nil {
+						var defs []ast.Expr
+						ast.Inspect(fd.Body, func(x ast.Node) bool {
+							if as, ok := x.(*ast.AssignStmt); ok && len(as.Lhs) == len(as.Rhs) {
+								for i, l := range as.Lhs {
+									if lid, ok := l.(*ast.Ident); ok && (info.Defs[lid] == o || info.Uses[lid] == o) {
+										defs = append(defs, as.Rhs[i])
+									}
+								}
+							}
+							return true
+						})
+						if len(defs) == 1 {
+							bound = defs[0]
+						}
+					}
+				}
+				if bound != nil {
+					ast.Inspect(bound, func(x ast.Node) bool {
 						if call, ok := x.(*ast.CallExpr); ok {
 							if f := calleeFunc(info, call); f != nil && (f.Name() == "Max" || f.Name() == "MaxSlice") {
 								hasMax = true
